@@ -143,3 +143,17 @@ CLAIMED["C06"] = dict(
   note=("Trusted: as C01 plus harness/regex_lang.py sampler. Partial: the exhaustive case analysis of every converter on its whole pattern language is validated, "
         "not proved."),
   design="§6 C06")
+
+CLAIMED["C11"] = dict(
+  technique="Lean 4 proof: the formatter's value is the version parser applied to the canonical string (definitional); kernel evaluation of the complete segment-spelling grammar on the regenerated Version table and __from_prefix tables",
+  text=("Theorems: C11_value_is_parser - for every parsed object the formatter's value is VersionPackage.parse of its canonical string; C11_converter_pre / "
+        "_post / _implicit - every letter x separator spelling that the %q / %p patterns admit (8 x 4, 3 x 4 and the implicit -N form: the complete finite "
+        "spelling grammar) is accepted by __from_prefix and normalised to the canonical letter; C11_pre_short / _long / _strict, C11_post, C11_post_implicit, "
+        "C11_dev, C11_combined - on the complete grammar lead-separator x letter x inner-separator of each segment, and on combinations with epoch and local "
+        "label, Version.parse with the mirroring format yields a value that agrees with VersionPackage.parse of the same string on epoch, release, kind and "
+        "number of pre/post/dev and local label, compares equal to it, and whose canonical string re-parses to the same version (kernel evaluation of the "
+        "model on tables regenerated from /repo). Numbers and releases beyond the instances are decided by the sweep (every single-segment spelling x 5 numbers "
+        "exhaustively; sampled combinations) and by the correspondence."),
+  note=("Trusted: as C07/C01. Partial: the statement for all numbers below 1000 in every segment is validated by sweep + correspondence, the theorems fix the "
+        "numbers (0, 7, 12, 99, 999) and quantify over the whole spelling grammar."),
+  design="§6 C11")
